@@ -7,6 +7,7 @@ belong to that property only (the correspondence problems are reported by every 
 import implenv  # noqa: F401
 
 import asyncio
+import os
 
 import fake_redis
 import vtime
@@ -221,6 +222,8 @@ async def random_session(rng: Rng, n_ops: int, profile: str, box: list | None = 
         return await backlog_session(rng, s)
     if profile == "dup":
         return await dup_session(rng, s)
+    if profile == "poll":
+        return await poll_session(rng, s)
     ncons = {"fifo": 1, "race": 2}.get(profile, rng.choice([1, 2, 3]))
     topics_pool = ["ta", "tb", "tab"]       # "tab": foreign to every filter used, but "ta" is a prefix of it
     for c in range(ncons):
@@ -254,6 +257,21 @@ async def random_session(rng: Rng, n_ops: int, profile: str, box: list | None = 
                     await s.consume(c, ORDERS[0])
     if profile in ("ttl", "mixed"):
         await drain_dead(s)
+    return s
+
+
+async def poll_session(rng: Rng, s: Session) -> Session:
+    """C05: a listening consumer polls every 100 ms while messages with due times at every position inside a clock second
+    come due — none may be handed over before its time, each within a second after it"""
+    s.consumer(0, "NORMAL", None)
+    t0 = CLOCK.us
+    n = rng.randint(2, 4)
+    for i in range(n):
+        off = rng.choice([1, 2]) * S + rng.choice([50_000, 300_000, 500_000, 550_000, 700_000, 800_000, 950_000, 999_000])
+        await s.enqueue(f"p{i}", "ta", 5, "{}", {"ts": t0, "next": t0 + off} if rng.random() < 0.6 else {"ts": t0, "delay_until": t0 + off})
+    for _ in range(45):
+        await s.consume(0, [9, 5, 0])
+        await s.advance(100_000)
     return s
 
 
@@ -532,6 +550,8 @@ def annotate(s: Session) -> None:
 
 def one_session(arg) -> Result:
     seed, i, profile, only, n_ops = arg
+    # sessions alternate between processes in UTC, five hours west and five and a half hours east of it
+    vtime.set_tz(["UTC", "XXX+5", "XXX-5:30"][i % 3] if not os.environ.get("VERIF_TZ") else os.environ["VERIF_TZ"])
     res = Result(only or "redis")
     model = Model()
     rng = Rng(seed, f"redis/{profile}/{i}")
@@ -562,6 +582,8 @@ def one_session(arg) -> Result:
 
 def one_crash(arg) -> Result:
     seed, i, only = arg
+    # sessions alternate between processes in UTC, five hours west and five and a half hours east of it
+    vtime.set_tz(["UTC", "XXX+5", "XXX-5:30"][i % 3] if not os.environ.get("VERIF_TZ") else os.environ["VERIF_TZ"])
     res = Result(only or "redis")
     model = Model()
     rng = Rng(seed, f"redis/crash/{i}")
@@ -709,6 +731,7 @@ def one_finish(arg) -> Result:
 
 
 def _dispatch(item) -> Result:
+    vtime.set_tz(os.environ.get("VERIF_TZ", "UTC"))       # (pool workers are reused: every item starts from the run's zone)
     kind = item[0]
     if kind == "f":
         return one_finish(item[1:])
